@@ -187,6 +187,8 @@ pub enum RdBackend {
     /// scale scenarios: the first `head_words` words of the image, then `zero_words`
     /// all-zero words (no memory), then the rest of the image; strict
     Sparse { head_words: usize, zero_words: u64 },
+    /// the real WordAdapter (directly or through std BufReader) over a sparse byte source
+    SparseAdapter { head_words: usize, zero_words: u64, buf: Option<usize> },
 }
 impl RdBackend {
     pub fn name(&self) -> &'static str {
@@ -201,6 +203,8 @@ impl RdBackend {
             RdBackend::StdCursor { cap: Some(_) } => "bufcursor",
             RdBackend::Faulty { .. } => "faulty",
             RdBackend::Sparse { .. } => "sparse",
+            RdBackend::SparseAdapter { buf: None, .. } => "sparse-adapter",
+            RdBackend::SparseAdapter { .. } => "sparse-bufadapter",
         }
     }
     pub fn zero_extended(&self) -> bool {
@@ -326,6 +330,19 @@ fn mk_rd_backend<W: SimWord>(spec: &RdBackend, bytes: &[u8]) -> (AnyWordRead<W>,
                 tail: Rc::new(words[h..].to_vec()),
                 pos: 0,
             })
+        }
+        RdBackend::SparseAdapter { head_words, zero_words, buf } => {
+            let h = (*head_words).min(words.len());
+            let d = SparseBytes {
+                head: Rc::new(words_to_bytes(&words[..h])),
+                zeros: *zero_words * W::NBYTES as u64,
+                tail: Rc::new(words_to_bytes(&words[h..])),
+                pos: 0,
+            };
+            match buf {
+                None => RdInner::SparseAdapter(WordAdapter::new(d)),
+                Some(c) => RdInner::SparseBufAdapter(WordAdapter::new(BufReader::with_capacity((*c).max(1), d))),
+            }
         }
         RdBackend::Faulty { fail_at, kind } => {
             let fired = Rc::new(RefCell::new(0));
